@@ -32,6 +32,7 @@ type c04Spec struct {
 	LowWind  []string `json:"low_wind,omitempty"`
 	Swapped  []string `json:"swapped,omitempty"` // days whose minimum and maximum temperature are exchanged in the file
 	Preco    bool     `json:"preco,omitempty"`
+	Decoy    bool     `json:"decoy,omitempty"`     // layouts 0 and 2: further columns whose names begin with a known column name stand to the left of the real ones
 	SentYear []string `json:"sent_year,omitempty"` // "year:col": the optional column holds the sentinel on every day of that calendar year
 	Kind     string   `json:"kind"` // label of the fault class
 }
@@ -104,6 +105,9 @@ func c04Specs(tier string, seed int) []c04Spec {
 				s := full
 				f(&s)
 				out = append(out, s)
+			}
+			if layout != 1 {
+				with(func(s *c04Spec) { s.Kind = "covered extra-columns"; s.Decoy = true })
 			}
 			// ---- normalisations on covered input
 			with(func(s *c04Spec) { s.Kind = "preco"; s.Preco = true })
@@ -256,19 +260,37 @@ func c04Write(root string, sp c04Spec, p *proj.Project) {
 	switch sp.Layout {
 	case 0:
 		var b strings.Builder
-		b.WriteString("iso-date,tmin,tavg,tmax,precip,globrad,wind,relhumid,sunhours,verd\n-,C,C,C,mm,MJ,m/s,%,h,mmHg\n")
+		if sp.Decoy {
+			b.WriteString("iso-date,tmin_soil,tmin,tavg_5cm,tavg,tmax_soil,tmax,precip_corr,precip,globrad_net,globrad,wind_gust,wind,relhumid_tmin,relhumid,sunhours_max,sunhours,verd_9h,verd\n-,C,C,C,C,C,C,mm,mm,MJ,MJ,m/s,m/s,%,%,h,h,mmHg,mmHg\n")
+		} else {
+			b.WriteString("iso-date,tmin,tavg,tmax,precip,globrad,wind,relhumid,sunhours,verd\n-,C,C,C,mm,MJ,m/s,%,h,mmHg\n")
+		}
 		for _, t := range days {
 			if d, ok := val(t); ok {
-				fmt.Fprintf(&b, "%s,%g,%g,%g,%g,%g,%g,%g,%g,%g\n", t.Format("2006-01-02"), d.Tmin, d.Tavg, d.Tmax, d.Precip, d.Rad, d.Wind, d.RH, d.Sun, d.Verd)
+				if sp.Decoy {
+					x := func(v float64) float64 { return v/2 + 3 } // a plausible but different number
+					fmt.Fprintf(&b, "%s,%g,%g,%g,%g,%g,%g,%g,%g,%g,%g,%g,%g,%g,%g,%g,%g,%g,%g\n", t.Format("2006-01-02"), x(d.Tmin), d.Tmin, x(d.Tavg), d.Tavg, x(d.Tmax), d.Tmax, x(d.Precip), d.Precip, x(d.Rad), d.Rad, x(d.Wind), d.Wind, x(d.RH), d.RH, x(d.Sun), d.Sun, x(d.Verd), d.Verd)
+				} else {
+					fmt.Fprintf(&b, "%s,%g,%g,%g,%g,%g,%g,%g,%g,%g\n", t.Format("2006-01-02"), d.Tmin, d.Tavg, d.Tmax, d.Precip, d.Rad, d.Wind, d.RH, d.Sun, d.Verd)
+				}
 			}
 		}
 		os.WriteFile(filepath.Join(dir, "W.csv"), []byte(b.String()), 0o644)
 	case 2:
 		var b strings.Builder
-		b.WriteString("@YYYYJJJ TMIN TMAX RAD PREC WIND RH SUNH VERD\n")
+		if sp.Decoy {
+			b.WriteString("@YYYYJJJ TMIN_S TMIN TMAX_S TMAX RAD_N RAD PREC_C PREC WIND_G WIND RH_MIN RH SUNH_X SUNH VERD_9 VERD\n")
+		} else {
+			b.WriteString("@YYYYJJJ TMIN TMAX RAD PREC WIND RH SUNH VERD\n")
+		}
 		for _, t := range days {
 			if d, ok := val(t); ok {
-				fmt.Fprintf(&b, "%04d%03d %g %g %g %g %g %g %g %g\n", t.Year(), t.YearDay(), d.Tmin, d.Tmax, d.Rad, d.Precip, d.Wind, d.RH, d.Sun, d.Verd)
+				if sp.Decoy {
+					x := func(v float64) float64 { return v/2 + 3 }
+					fmt.Fprintf(&b, "%04d%03d %g %g %g %g %g %g %g %g %g %g %g %g %g %g %g %g\n", t.Year(), t.YearDay(), x(d.Tmin), d.Tmin, x(d.Tmax), d.Tmax, x(d.Rad), d.Rad, x(d.Precip), d.Precip, x(d.Wind), d.Wind, x(d.RH), d.RH, x(d.Sun), d.Sun, x(d.Verd), d.Verd)
+				} else {
+					fmt.Fprintf(&b, "%04d%03d %g %g %g %g %g %g %g %g\n", t.Year(), t.YearDay(), d.Tmin, d.Tmax, d.Rad, d.Precip, d.Wind, d.RH, d.Sun, d.Verd)
+				}
 			}
 		}
 		os.WriteFile(filepath.Join(dir, "W.csv"), []byte(b.String()), 0o644)
